@@ -66,6 +66,9 @@ structure Inv (s : Core) : Prop where
   ever : s.pc.initialPhase = false → s.pc ≠ .done → s.everRunning = true
   stopEver : s.stop.isSome = true → s.everRunning = true
   stopKind : ∀ e, s.stop = some e → e.stops = true
+  notEver : s.pc.initialPhase = true → s.everRunning = false
+  doneNoStop : s.pc = .done → s.stop = none →
+    (s.everRunning = false ∧ s.st = .closed) ∨ (s.everRunning = true ∧ (s.st = .starting ∨ s.st = .closing))
 
 theorem inv_init : Inv init.core := by
   constructor <;> simp [init, S.core, Pc.stateAt, Pc.hasLive, Pc.isSetup2, Pc.inShut, Pc.initialPhase, Ev.stops]
@@ -94,8 +97,8 @@ macro "c20_close" : tactic =>
   `(tactic| (constructor <;> simp_all [S.core, Pc.stateAt, Pc.hasLive, Pc.isSetup2, Pc.inShut, Pc.initialPhase, Ev.stops]))
 
 theorem inv_step_setup1_true {s s' : S} {ok : Bool} (hi : Inv s.core) (hpc : s.pc = .setup1 true) (h : stepRun s ok = some s') : Inv s'.core := by
-  obtain ⟨h1, h2, h3, h4, h5, h6, h7, h8, h9, h10, h11, h12, h13, h14, h15, h16, h17⟩ := hi
-  simp only [S.core] at h1 h2 h3 h4 h5 h6 h7 h8 h9 h10 h11 h12 h13 h14 h15 h16 h17
+  obtain ⟨h1, h2, h3, h4, h5, h6, h7, h8, h9, h10, h11, h12, h13, h14, h15, h16, h17, h18, h19⟩ := hi
+  simp only [S.core] at h1 h2 h3 h4 h5 h6 h7 h8 h9 h10 h11 h12 h13 h14 h15 h16 h17 h18 h19
   have h4' := h4
   simp only [hpc, Pc.hasLive] at h4'
   cases ok <;> c20_step_simp h hpc
@@ -113,8 +116,8 @@ theorem inv_step_setup1_true {s s' : S} {ok : Bool} (hi : Inv s.core) (hpc : s.p
     | skip)
 
 theorem inv_step_setup1_false {s s' : S} {ok : Bool} (hi : Inv s.core) (hpc : s.pc = .setup1 false) (h : stepRun s ok = some s') : Inv s'.core := by
-  obtain ⟨h1, h2, h3, h4, h5, h6, h7, h8, h9, h10, h11, h12, h13, h14, h15, h16, h17⟩ := hi
-  simp only [S.core] at h1 h2 h3 h4 h5 h6 h7 h8 h9 h10 h11 h12 h13 h14 h15 h16 h17
+  obtain ⟨h1, h2, h3, h4, h5, h6, h7, h8, h9, h10, h11, h12, h13, h14, h15, h16, h17, h18, h19⟩ := hi
+  simp only [S.core] at h1 h2 h3 h4 h5 h6 h7 h8 h9 h10 h11 h12 h13 h14 h15 h16 h17 h18 h19
   have h4' := h4
   simp only [hpc, Pc.hasLive] at h4'
   cases ok <;> c20_step_simp h hpc
@@ -132,8 +135,8 @@ theorem inv_step_setup1_false {s s' : S} {ok : Bool} (hi : Inv s.core) (hpc : s.
     | skip)
 
 theorem inv_step_setup2_true {s s' : S} {ok : Bool} (hi : Inv s.core) (hpc : s.pc = .setup2 true) (h : stepRun s ok = some s') : Inv s'.core := by
-  obtain ⟨h1, h2, h3, h4, h5, h6, h7, h8, h9, h10, h11, h12, h13, h14, h15, h16, h17⟩ := hi
-  simp only [S.core] at h1 h2 h3 h4 h5 h6 h7 h8 h9 h10 h11 h12 h13 h14 h15 h16 h17
+  obtain ⟨h1, h2, h3, h4, h5, h6, h7, h8, h9, h10, h11, h12, h13, h14, h15, h16, h17, h18, h19⟩ := hi
+  simp only [S.core] at h1 h2 h3 h4 h5 h6 h7 h8 h9 h10 h11 h12 h13 h14 h15 h16 h17 h18 h19
   have h4' := h4
   simp only [hpc, Pc.hasLive] at h4'
   cases ok <;> c20_step_simp h hpc
@@ -151,8 +154,8 @@ theorem inv_step_setup2_true {s s' : S} {ok : Bool} (hi : Inv s.core) (hpc : s.p
     | skip)
 
 theorem inv_step_setup2_false {s s' : S} {ok : Bool} (hi : Inv s.core) (hpc : s.pc = .setup2 false) (h : stepRun s ok = some s') : Inv s'.core := by
-  obtain ⟨h1, h2, h3, h4, h5, h6, h7, h8, h9, h10, h11, h12, h13, h14, h15, h16, h17⟩ := hi
-  simp only [S.core] at h1 h2 h3 h4 h5 h6 h7 h8 h9 h10 h11 h12 h13 h14 h15 h16 h17
+  obtain ⟨h1, h2, h3, h4, h5, h6, h7, h8, h9, h10, h11, h12, h13, h14, h15, h16, h17, h18, h19⟩ := hi
+  simp only [S.core] at h1 h2 h3 h4 h5 h6 h7 h8 h9 h10 h11 h12 h13 h14 h15 h16 h17 h18 h19
   have h4' := h4
   simp only [hpc, Pc.hasLive] at h4'
   cases ok <;> c20_step_simp h hpc
@@ -170,8 +173,8 @@ theorem inv_step_setup2_false {s s' : S} {ok : Bool} (hi : Inv s.core) (hpc : s.
     | skip)
 
 theorem inv_step_setup3_true {s s' : S} {ok : Bool} (hi : Inv s.core) (hpc : s.pc = .setup3 true) (h : stepRun s ok = some s') : Inv s'.core := by
-  obtain ⟨h1, h2, h3, h4, h5, h6, h7, h8, h9, h10, h11, h12, h13, h14, h15, h16, h17⟩ := hi
-  simp only [S.core] at h1 h2 h3 h4 h5 h6 h7 h8 h9 h10 h11 h12 h13 h14 h15 h16 h17
+  obtain ⟨h1, h2, h3, h4, h5, h6, h7, h8, h9, h10, h11, h12, h13, h14, h15, h16, h17, h18, h19⟩ := hi
+  simp only [S.core] at h1 h2 h3 h4 h5 h6 h7 h8 h9 h10 h11 h12 h13 h14 h15 h16 h17 h18 h19
   have h4' := h4
   simp only [hpc, Pc.hasLive] at h4'
   cases ok <;> c20_step_simp h hpc
@@ -189,8 +192,8 @@ theorem inv_step_setup3_true {s s' : S} {ok : Bool} (hi : Inv s.core) (hpc : s.p
     | skip)
 
 theorem inv_step_setup3_false {s s' : S} {ok : Bool} (hi : Inv s.core) (hpc : s.pc = .setup3 false) (h : stepRun s ok = some s') : Inv s'.core := by
-  obtain ⟨h1, h2, h3, h4, h5, h6, h7, h8, h9, h10, h11, h12, h13, h14, h15, h16, h17⟩ := hi
-  simp only [S.core] at h1 h2 h3 h4 h5 h6 h7 h8 h9 h10 h11 h12 h13 h14 h15 h16 h17
+  obtain ⟨h1, h2, h3, h4, h5, h6, h7, h8, h9, h10, h11, h12, h13, h14, h15, h16, h17, h18, h19⟩ := hi
+  simp only [S.core] at h1 h2 h3 h4 h5 h6 h7 h8 h9 h10 h11 h12 h13 h14 h15 h16 h17 h18 h19
   have h4' := h4
   simp only [hpc, Pc.hasLive] at h4'
   cases ok <;> c20_step_simp h hpc
@@ -208,8 +211,8 @@ theorem inv_step_setup3_false {s s' : S} {ok : Bool} (hi : Inv s.core) (hpc : s.
     | skip)
 
 theorem inv_step_setupSd_true {s s' : S} {ok : Bool} (hi : Inv s.core) (hpc : s.pc = .setupSd true) (h : stepRun s ok = some s') : Inv s'.core := by
-  obtain ⟨h1, h2, h3, h4, h5, h6, h7, h8, h9, h10, h11, h12, h13, h14, h15, h16, h17⟩ := hi
-  simp only [S.core] at h1 h2 h3 h4 h5 h6 h7 h8 h9 h10 h11 h12 h13 h14 h15 h16 h17
+  obtain ⟨h1, h2, h3, h4, h5, h6, h7, h8, h9, h10, h11, h12, h13, h14, h15, h16, h17, h18, h19⟩ := hi
+  simp only [S.core] at h1 h2 h3 h4 h5 h6 h7 h8 h9 h10 h11 h12 h13 h14 h15 h16 h17 h18 h19
   have h4' := h4
   simp only [hpc, Pc.hasLive] at h4'
   cases ok <;> c20_step_simp h hpc
@@ -227,8 +230,8 @@ theorem inv_step_setupSd_true {s s' : S} {ok : Bool} (hi : Inv s.core) (hpc : s.
     | skip)
 
 theorem inv_step_setupSd_false {s s' : S} {ok : Bool} (hi : Inv s.core) (hpc : s.pc = .setupSd false) (h : stepRun s ok = some s') : Inv s'.core := by
-  obtain ⟨h1, h2, h3, h4, h5, h6, h7, h8, h9, h10, h11, h12, h13, h14, h15, h16, h17⟩ := hi
-  simp only [S.core] at h1 h2 h3 h4 h5 h6 h7 h8 h9 h10 h11 h12 h13 h14 h15 h16 h17
+  obtain ⟨h1, h2, h3, h4, h5, h6, h7, h8, h9, h10, h11, h12, h13, h14, h15, h16, h17, h18, h19⟩ := hi
+  simp only [S.core] at h1 h2 h3 h4 h5 h6 h7 h8 h9 h10 h11 h12 h13 h14 h15 h16 h17 h18 h19
   have h4' := h4
   simp only [hpc, Pc.hasLive] at h4'
   cases ok <;> c20_step_simp h hpc
@@ -246,8 +249,8 @@ theorem inv_step_setupSd_false {s s' : S} {ok : Bool} (hi : Inv s.core) (hpc : s
     | skip)
 
 theorem inv_step_setup4_true {s s' : S} {ok : Bool} (hi : Inv s.core) (hpc : s.pc = .setup4 true) (h : stepRun s ok = some s') : Inv s'.core := by
-  obtain ⟨h1, h2, h3, h4, h5, h6, h7, h8, h9, h10, h11, h12, h13, h14, h15, h16, h17⟩ := hi
-  simp only [S.core] at h1 h2 h3 h4 h5 h6 h7 h8 h9 h10 h11 h12 h13 h14 h15 h16 h17
+  obtain ⟨h1, h2, h3, h4, h5, h6, h7, h8, h9, h10, h11, h12, h13, h14, h15, h16, h17, h18, h19⟩ := hi
+  simp only [S.core] at h1 h2 h3 h4 h5 h6 h7 h8 h9 h10 h11 h12 h13 h14 h15 h16 h17 h18 h19
   have h4' := h4
   simp only [hpc, Pc.hasLive] at h4'
   cases ok <;> c20_step_simp h hpc
@@ -265,8 +268,8 @@ theorem inv_step_setup4_true {s s' : S} {ok : Bool} (hi : Inv s.core) (hpc : s.p
     | skip)
 
 theorem inv_step_setup4_false {s s' : S} {ok : Bool} (hi : Inv s.core) (hpc : s.pc = .setup4 false) (h : stepRun s ok = some s') : Inv s'.core := by
-  obtain ⟨h1, h2, h3, h4, h5, h6, h7, h8, h9, h10, h11, h12, h13, h14, h15, h16, h17⟩ := hi
-  simp only [S.core] at h1 h2 h3 h4 h5 h6 h7 h8 h9 h10 h11 h12 h13 h14 h15 h16 h17
+  obtain ⟨h1, h2, h3, h4, h5, h6, h7, h8, h9, h10, h11, h12, h13, h14, h15, h16, h17, h18, h19⟩ := hi
+  simp only [S.core] at h1 h2 h3 h4 h5 h6 h7 h8 h9 h10 h11 h12 h13 h14 h15 h16 h17 h18 h19
   have h4' := h4
   simp only [hpc, Pc.hasLive] at h4'
   cases ok <;> c20_step_simp h hpc
@@ -284,8 +287,8 @@ theorem inv_step_setup4_false {s s' : S} {ok : Bool} (hi : Inv s.core) (hpc : s.
     | skip)
 
 theorem inv_step_initFail {s s' : S} {ok : Bool} (hi : Inv s.core) (hpc : s.pc = .initFail) (h : stepRun s ok = some s') : Inv s'.core := by
-  obtain ⟨h1, h2, h3, h4, h5, h6, h7, h8, h9, h10, h11, h12, h13, h14, h15, h16, h17⟩ := hi
-  simp only [S.core] at h1 h2 h3 h4 h5 h6 h7 h8 h9 h10 h11 h12 h13 h14 h15 h16 h17
+  obtain ⟨h1, h2, h3, h4, h5, h6, h7, h8, h9, h10, h11, h12, h13, h14, h15, h16, h17, h18, h19⟩ := hi
+  simp only [S.core] at h1 h2 h3 h4 h5 h6 h7 h8 h9 h10 h11 h12 h13 h14 h15 h16 h17 h18 h19
   have h4' := h4
   simp only [hpc, Pc.hasLive] at h4'
   cases ok <;> c20_step_simp h hpc
@@ -303,8 +306,8 @@ theorem inv_step_initFail {s s' : S} {ok : Bool} (hi : Inv s.core) (hpc : s.pc =
     | skip)
 
 theorem inv_step_reload1 {s s' : S} {ok : Bool} (hi : Inv s.core) (hpc : s.pc = .reload1) (h : stepRun s ok = some s') : Inv s'.core := by
-  obtain ⟨h1, h2, h3, h4, h5, h6, h7, h8, h9, h10, h11, h12, h13, h14, h15, h16, h17⟩ := hi
-  simp only [S.core] at h1 h2 h3 h4 h5 h6 h7 h8 h9 h10 h11 h12 h13 h14 h15 h16 h17
+  obtain ⟨h1, h2, h3, h4, h5, h6, h7, h8, h9, h10, h11, h12, h13, h14, h15, h16, h17, h18, h19⟩ := hi
+  simp only [S.core] at h1 h2 h3 h4 h5 h6 h7 h8 h9 h10 h11 h12 h13 h14 h15 h16 h17 h18 h19
   have h4' := h4
   simp only [hpc, Pc.hasLive] at h4'
   cases ok <;> c20_step_simp h hpc
@@ -322,8 +325,8 @@ theorem inv_step_reload1 {s s' : S} {ok : Bool} (hi : Inv s.core) (hpc : s.pc = 
     | skip)
 
 theorem inv_step_reload2 {s s' : S} {ok : Bool} (hi : Inv s.core) (hpc : s.pc = .reload2) (h : stepRun s ok = some s') : Inv s'.core := by
-  obtain ⟨h1, h2, h3, h4, h5, h6, h7, h8, h9, h10, h11, h12, h13, h14, h15, h16, h17⟩ := hi
-  simp only [S.core] at h1 h2 h3 h4 h5 h6 h7 h8 h9 h10 h11 h12 h13 h14 h15 h16 h17
+  obtain ⟨h1, h2, h3, h4, h5, h6, h7, h8, h9, h10, h11, h12, h13, h14, h15, h16, h17, h18, h19⟩ := hi
+  simp only [S.core] at h1 h2 h3 h4 h5 h6 h7 h8 h9 h10 h11 h12 h13 h14 h15 h16 h17 h18 h19
   have h4' := h4
   simp only [hpc, Pc.hasLive] at h4'
   cases ok <;> c20_step_simp h hpc
@@ -341,8 +344,8 @@ theorem inv_step_reload2 {s s' : S} {ok : Bool} (hi : Inv s.core) (hpc : s.pc = 
     | skip)
 
 theorem inv_step_shut1 {s s' : S} {ok : Bool} (hi : Inv s.core) (hpc : s.pc = .shut1) (h : stepRun s ok = some s') : Inv s'.core := by
-  obtain ⟨h1, h2, h3, h4, h5, h6, h7, h8, h9, h10, h11, h12, h13, h14, h15, h16, h17⟩ := hi
-  simp only [S.core] at h1 h2 h3 h4 h5 h6 h7 h8 h9 h10 h11 h12 h13 h14 h15 h16 h17
+  obtain ⟨h1, h2, h3, h4, h5, h6, h7, h8, h9, h10, h11, h12, h13, h14, h15, h16, h17, h18, h19⟩ := hi
+  simp only [S.core] at h1 h2 h3 h4 h5 h6 h7 h8 h9 h10 h11 h12 h13 h14 h15 h16 h17 h18 h19
   have h4' := h4
   simp only [hpc, Pc.hasLive] at h4'
   cases ok <;> c20_step_simp h hpc
@@ -360,8 +363,8 @@ theorem inv_step_shut1 {s s' : S} {ok : Bool} (hi : Inv s.core) (hpc : s.pc = .s
     | skip)
 
 theorem inv_step_shut2 {s s' : S} {ok : Bool} (hi : Inv s.core) (hpc : s.pc = .shut2) (h : stepRun s ok = some s') : Inv s'.core := by
-  obtain ⟨h1, h2, h3, h4, h5, h6, h7, h8, h9, h10, h11, h12, h13, h14, h15, h16, h17⟩ := hi
-  simp only [S.core] at h1 h2 h3 h4 h5 h6 h7 h8 h9 h10 h11 h12 h13 h14 h15 h16 h17
+  obtain ⟨h1, h2, h3, h4, h5, h6, h7, h8, h9, h10, h11, h12, h13, h14, h15, h16, h17, h18, h19⟩ := hi
+  simp only [S.core] at h1 h2 h3 h4 h5 h6 h7 h8 h9 h10 h11 h12 h13 h14 h15 h16 h17 h18 h19
   have h4' := h4
   simp only [hpc, Pc.hasLive] at h4'
   cases ok <;> c20_step_simp h hpc
@@ -379,8 +382,8 @@ theorem inv_step_shut2 {s s' : S} {ok : Bool} (hi : Inv s.core) (hpc : s.pc = .s
     | skip)
 
 theorem inv_step_shut3 {s s' : S} {ok : Bool} (hi : Inv s.core) (hpc : s.pc = .shut3) (h : stepRun s ok = some s') : Inv s'.core := by
-  obtain ⟨h1, h2, h3, h4, h5, h6, h7, h8, h9, h10, h11, h12, h13, h14, h15, h16, h17⟩ := hi
-  simp only [S.core] at h1 h2 h3 h4 h5 h6 h7 h8 h9 h10 h11 h12 h13 h14 h15 h16 h17
+  obtain ⟨h1, h2, h3, h4, h5, h6, h7, h8, h9, h10, h11, h12, h13, h14, h15, h16, h17, h18, h19⟩ := hi
+  simp only [S.core] at h1 h2 h3 h4 h5 h6 h7 h8 h9 h10 h11 h12 h13 h14 h15 h16 h17 h18 h19
   have h4' := h4
   simp only [hpc, Pc.hasLive] at h4'
   cases ok <;> c20_step_simp h hpc
@@ -398,8 +401,8 @@ theorem inv_step_shut3 {s s' : S} {ok : Bool} (hi : Inv s.core) (hpc : s.pc = .s
     | skip)
 
 theorem inv_step_shut4 {s s' : S} {ok : Bool} (hi : Inv s.core) (hpc : s.pc = .shut4) (h : stepRun s ok = some s') : Inv s'.core := by
-  obtain ⟨h1, h2, h3, h4, h5, h6, h7, h8, h9, h10, h11, h12, h13, h14, h15, h16, h17⟩ := hi
-  simp only [S.core] at h1 h2 h3 h4 h5 h6 h7 h8 h9 h10 h11 h12 h13 h14 h15 h16 h17
+  obtain ⟨h1, h2, h3, h4, h5, h6, h7, h8, h9, h10, h11, h12, h13, h14, h15, h16, h17, h18, h19⟩ := hi
+  simp only [S.core] at h1 h2 h3 h4 h5 h6 h7 h8 h9 h10 h11 h12 h13 h14 h15 h16 h17 h18 h19
   have h4' := h4
   simp only [hpc, Pc.hasLive] at h4'
   cases ok <;> c20_step_simp h hpc
@@ -435,15 +438,15 @@ theorem inv_step {s s' : S} {ok : Bool} (hi : Inv s.core) (h : stepRun s ok = so
   case shut4 => exact inv_step_shut4 hi hpc h
 
 theorem inv_pick {s s' : S} {e : Ev} (hi : Inv s.core) (hpc : s.pc = .select) (h : pickEv s e = some s') : Inv s'.core := by
-  obtain ⟨h1, h2, h3, h4, h5, h6, h7, h8, h9, h10, h11, h12, h13, h14, h15, h16, h17⟩ := hi
-  simp only [S.core] at h1 h2 h3 h4 h5 h6 h7 h8 h9 h10 h11 h12 h13 h14 h15 h16 h17
+  obtain ⟨h1, h2, h3, h4, h5, h6, h7, h8, h9, h10, h11, h12, h13, h14, h15, h16, h17, h18, h19⟩ := hi
+  simp only [S.core] at h1 h2 h3 h4 h5 h6 h7 h8 h9 h10 h11 h12 h13 h14 h15 h16 h17 h18 h19
   cases e <;> simp only [pickEv, leave, S.emit] at h <;> split at h <;> simp only [Option.some.injEq, reduceCtorEq] at h
   all_goals subst h
   all_goals c20_close
 
 theorem inv_begin {s s' : S} (hi : Inv s.core) (hpc : s.pc = .idle) (h : s' = { s with pc := .setup1 false }) : Inv s'.core := by
-  obtain ⟨h1, h2, h3, h4, h5, h6, h7, h8, h9, h10, h11, h12, h13, h14, h15, h16, h17⟩ := hi
-  simp only [S.core] at h1 h2 h3 h4 h5 h6 h7 h8 h9 h10 h11 h12 h13 h14 h15 h16 h17
+  obtain ⟨h1, h2, h3, h4, h5, h6, h7, h8, h9, h10, h11, h12, h13, h14, h15, h16, h17, h18, h19⟩ := hi
+  simp only [S.core] at h1 h2 h3 h4 h5 h6 h7 h8 h9 h10 h11 h12 h13 h14 h15 h16 h17 h18 h19
   subst h
   c20_close
 
